@@ -67,6 +67,15 @@ def walk_case(ctx, rng, idx):
         hb = big_hypergraph(rng, contiguous=True, connected=True, sizes=(2, 2, 3, 4, 5))
         walk_eval(ctx, rng, idx, hb, hb.num_nodes())
         return
+    if idx == 8 or (ctx.tier == "thorough" and idx % 700 == 14):
+        # one pair of nodes sharing 286 hyperedges of one size (0, 1 and every 3-subset of 13 further nodes)
+        import itertools as _it
+        import hypergraphx as hgx
+
+        ctx.event("pair-in-286-hyperedges")
+        hb = hgx.Hypergraph([(0, 1) + c for c in _it.combinations(range(2, 15), 3)])
+        walk_eval(ctx, rng, idx, hb, 15)
+        return
     if idx in (4, 6) or (ctx.tier == "thorough" and idx % 700 == 12):
         from ..gen import core_periphery
 
